@@ -2,7 +2,7 @@
 from ..runner import Result
 from . import common
 
-PROFILE = {'name': 'c15', 'max_clients': 5, 'hostile_masks': False, 'mp_rate': 0.5, 'cfg_variants': [{}, {'default_modes': 'w'}, {'default_modes': 'i'}], 'weights': {'connect': 6, 'end': 2, 'quit': 1, 'join': 14, 'part': 4, 'kick': 3, 'topic': 2, 'invite': 6, 'cmode': 10, 'umode': 8, 'nick': 30, 'privmsg': 3, 'notice': 2, 'away': 5, 'oper': 4, 'kill': 0.5, 'wallops': 4, 'stats': 0.3, 'die': 0.1, 'squit': 0.1, 'names': 3, 'who': 1, 'whois': 3, 'list': 0.5, 'lusers': 0.5, 'ison': 0.3, 'userhost': 0.3, 'whowas': 4, 'chanlist': 0.5, 'cquery': 0.5}, 'mode_weights': {'q': 3, 'a': 3, 'o': 6, 'h': 5, 'v': 6, 'i': 4}}
+PROFILE = {'name': 'c15', 'invalid_nicks': True, 'max_clients': 5, 'hostile_masks': False, 'mp_rate': 0.5, 'cfg_variants': [{}, {'default_modes': 'w'}, {'default_modes': 'i'}], 'weights': {'connect': 6, 'end': 2, 'quit': 1, 'join': 14, 'part': 4, 'kick': 3, 'topic': 2, 'invite': 6, 'cmode': 10, 'umode': 8, 'nick': 30, 'privmsg': 3, 'notice': 2, 'away': 5, 'oper': 4, 'kill': 0.5, 'wallops': 4, 'stats': 0.3, 'die': 0.1, 'squit': 0.1, 'names': 3, 'who': 1, 'whois': 3, 'list': 0.5, 'lusers': 0.5, 'ison': 0.3, 'userhost': 0.3, 'whowas': 4, 'chanlist': 0.5, 'cquery': 0.5}, 'mode_weights': {'q': 3, 'a': 3, 'o': 6, 'h': 5, 'v': 6, 'i': 4}}
 
 
 def run(ctx):
